@@ -14,7 +14,7 @@ structure AEntry where
   id : Str
 
 def AEntry.key (e : AEntry) : Option Str :=
-  if (e.kind == "iri" || e.kind == "obj" || e.kind == "link") && !e.id.isEmpty then some e.id else none
+  if (e.kind == "iri" || e.kind == "obj" || e.kind == "obj2" || e.kind == "link") && !e.id.isEmpty then some e.id else none
 
 /-- `GetID()` of the entry, `none` for nil. -/
 def AEntry.idOf (e : AEntry) : Option Str :=
